@@ -25,6 +25,26 @@ ForestViol(g, r) ==
   \cup (IF r.csd # Dim(g) THEN {"dimension"} ELSE {})
 
 
+\* families with more than 2^8 / 2^16 vertices or edges (h_comp forest_family): the edge list is implied by (fam, a, b)
+ForestFamViol(r) ==
+  LET m == Len(r.idx)
+      expM == CASE r.fam = "path" -> r.a - 1 [] r.fam = "star" -> r.a - 1 [] r.fam = "cycle" -> r.a
+                [] r.fam = "twocycles" -> 2 * r.a [] OTHER -> r.b
+      expN == IF r.fam = "twocycles" THEN 2 * r.a ELSE r.a
+      expK == CASE r.fam \in {"path", "star", "cycle"} -> 1 [] r.fam = "twocycles" -> 2 [] OTHER -> r.a - r.b
+      off == {e \in 1..m : r.onforest[e] = 0}
+  IN   (IF m # expM \/ Len(r.rev) # m \/ Len(r.onforest) # m \/ r.n # expN THEN {"shape"}
+        ELSE
+             (IF {r.idx[e] : e \in 1..m} # 0..(m-1) THEN {"idx-not-bijective"} ELSE {})
+        \cup (IF \E e \in 1..m : r.idx[e] \in 0..(m-1) /\ r.rev[r.idx[e] + 1] # e THEN {"lookups-not-inverse"} ELSE {})
+        \cup (IF \E e \in 1..m : (r.onforest[e] = 1) # (r.idx[e] >= r.csd) THEN {"onforest-vs-index"} ELSE {})
+        \cup (IF Cardinality(off) # expM - expN + expK
+                 \/ (r.fam = "twocycles" /\ ~(\E e \in off : e <= r.a) /\ off # {})
+                 \/ (r.fam = "twocycles" /\ ~(\E e \in off : e > r.a) /\ off # {})
+              THEN {"not-spanning-forest"} ELSE {}))
+  \cup (IF r.k # expK THEN {"components"} ELSE {})
+  \cup (IF r.csd # expM - expN + expK THEN {"dimension"} ELSE {})
+
 \* ---------------- C13 greedy_fvs ---------------------------------------------------
 \* abstract: out is a sequence of vertices
 FvsViol(g, out) ==
